@@ -106,6 +106,9 @@ class Gen:
                     live[:] = [x for x in live if x in SAVED or x in ("sp", "zero")]
                     if r.random() < 0.6:
                         self.emit(f"mv {r.choice(TEMPS)}, a0")
+                    if f in getattr(self, "ret2", {}) and r.random() < 0.8:
+                        self.stats["second_return_read"] = self.stats.get("second_return_read", 0) + 1
+                        self.emit(f"add {r.choice(TEMPS)}, a0, {self.ret2[f]}")
                     if self.slop() and TEMPS:
                         self.emit(f"add a1, a1, {r.choice(TEMPS)}")   # temp read after call
             elif k < 0.90:
@@ -169,6 +172,8 @@ class Gen:
             early = self.fresh("early")
             self.emit(f"beqz a0, {early}")
         self.emit(f"mv a0, {r.choice(live)}")
+        if name in getattr(self, "ret2", {}):
+            self.emit(f"addi {self.ret2[name]}, a0, {r.choice([1, 2, 5])}")
         if frame:
             for i, s in enumerate(slots):
                 if not self.slop():
@@ -188,6 +193,8 @@ class Gen:
         r = self.rng
         nf = r.randrange(0, 4)
         funcs = [f"f{i}" for i in range(nf)]
+        # some functions hand back a second value in one of a1..a7, read by their callers
+        self.ret2 = {f: r.choice(ARGS[1:8]) for f in funcs if r.random() < 0.4}
         if self.multi_ret and funcs:
             self.multi_ret = r.choice(funcs)
         else:
